@@ -10,7 +10,14 @@ from vf.specs import busmath
 
 
 def check_builtin(kind, addr, n):
-    """-> None or failure description"""
+    """-> None or failure description (an exception of the code under test where the formulas define a result is a failure, not a crash of this script)"""
+    try:
+        return _check_builtin(kind, addr, n)
+    except Exception as e:  # noqa: BLE001
+        return f"unexpected {type(e).__name__}: {e}"
+
+
+def _check_builtin(kind, addr, n):
     from a816.symbols import high_rom_bus, low_rom_bus
 
     bus = low_rom_bus if kind == "low" else high_rom_bus
@@ -72,6 +79,13 @@ def map_program(cfg):
 
 
 def check_map_cfg(cfg, probes):
+    try:
+        return _check_map_cfg(cfg, probes)
+    except Exception as e:  # noqa: BLE001
+        return f"unexpected {type(e).__name__}: {e}"
+
+
+def _check_map_cfg(cfg, probes):
     src = map_program(cfg)
     res = assemble(src + "*=" + hex(probes[0][0]) + "\n")
     # the program above only has to parse; the probes go through the resolver's bus
